@@ -7,4 +7,7 @@ make nets >/dev/null
 for f in plain asan tsan; do
   make -j16 FLAVOUR=$f >/dev/null 2>build/setup_$f.log || { tail -30 build/setup_$f.log; exit 1; }
 done
+# oracle caches used by the quick checks
+build/plain/texelsim dtm all3 >/dev/null
+(build/plain/texelsim dtm KQvKR >/dev/null &) ; build/plain/texelsim dtm KRBvK >/dev/null; wait
 echo "setup done"
